@@ -340,6 +340,12 @@ def gen_C02(rng, tier):
             b[0:4] = E.u32(t - 8)
         cases.append("mbiwalk " + hx(valid_mem(bytes(b))))
         count(dist["realistic"], kind)
+    # total sizes around 2^30, 2^31 and 2^32 backed by that much (sparse, zero) memory: only the header and the last 8 bytes
+    # are written; the model side is the closed form of C02_load_sparse
+    for t in [0x3FFFFFF8, 0x40000000, 0x7FFFFFF0, 0x7FFFFFF8, 0x7FFFFFFC, 0x80000000, 0x80000004, 0x80000008, 0x80000010, 0x80000018, 0xC0000000, 0xFFFFFFE8, 0xFFFFFFF0, 0xFFFFFFF8, 0xFFFFFFFC, 0xFFFFFFFF]:
+        for name in ("end", "type1", "size9", "ff"):
+            cases.append("mbihuge %s %s" % (hx(E.u32(t) + E.u32(rng.choice([0, 0xFFFFFFFF]))), hx(last8_variants[name])))
+            dist["huge_total_sizes"] = dist.get("huge_total_sizes", 0) + 1
     return cases, dict(
         rule="mbiwalk: realistic regions of 0..8 tags, each also with one mutation of the total size or of the end tag; "
              "all total sizes 0..72 x six contents of the last 8 bytes x reserved word {0, 0xFFFFFFFF} (exhaustive), "
@@ -561,6 +567,14 @@ def gen_C10(rng, tier):
                 for ck in (c, (c + 1) & 0xFFFFFFFF, rng.getrandbits(32)):
                     cases.append("verify " + hx(E.u32(magic) + E.u32(arch) + E.u32(length) + E.u32(ck)))
                     dist["verify"] = dist.get("verify", 0) + 1
+    # declared lengths around 2^30, 2^31 and 2^32 backed by that much (sparse, zero) memory; model: C10_load_sparse
+    for length in [0x3FFFFFF8, 0x40000000, 0x7FFFFFF0, 0x7FFFFFF8, 0x7FFFFFFC, 0x80000000, 0x80000004, 0x80000008, 0x80000010, 0x80000018, 0xC0000000, 0xFFFFFFE8, 0xFFFFFFF0, 0xFFFFFFF8, 0xFFFFFFFC, 0xFFFFFFFF]:
+        for arch in (0, 4):
+            for magic in (E.HDR_MAGIC, 0xE85250D7):
+                c = E.checksum(magic, arch, length)
+                for ck in (c, (c + 1) & 0xFFFFFFFF):
+                    cases.append("hdrhuge " + hx(E.u32(magic) + E.u32(arch) + E.u32(length) + E.u32(ck)))
+                    dist["huge_lengths"] = dist.get("huge_lengths", 0) + 1
     return cases, dict(
         rule="verify: Multiboot2BasicHeader::verify_checksum on bare 16-byte headers with lengths around 2^32 - magic, 2^31, 2^32 and "
              "seeded random lengths x arch x magic {spec, 0, 0xFFFFFFFF, random} x checksum {right, +1, random}; "
@@ -648,6 +662,17 @@ def gen_C13(rng, tier):
             bb[pos[0] + 8:pos[0] + 12] = E.u32(rng.choice([16, 24, n - pos[0], n - pos[0] + 8, rng.randrange(0, 64)]))
         cases.append("find 0 " + hx(bb))
         dist["random"] += 1
+    # buffers of 2 GiB .. 5 GiB (sparse, zero behind the first 8204 bytes); model: C13_sparse
+    for L in (0x80000000, 0xFFFFFFF8, 0x100000000, 0x100000008, 0x100000FF8, 0x100001FFF, 0x100002000, 0x100002008, 0x140000000):
+        for idx in (None, 0, 8, 64, 4, 8184, 8188, 8192):
+            for hl in ((24, L, 0xFFFFFFFF) if idx is not None else (0,)):
+                pre = bytearray(8204)
+                if idx is not None:
+                    hl2 = hl if hl != L else min(0xFFFFFFFF, L - idx)
+                    blob = E.u32(E.HDR_MAGIC) + E.u32(0) + E.u32(hl2) + E.u32(E.checksum(E.HDR_MAGIC, 0, hl2))
+                    pre[idx:idx + 16] = blob[:max(0, min(16, 8204 - idx))]
+                cases.append("findhuge %d %s" % (L, hx(bytes(pre))))
+                dist["huge_buffers"] = dist.get("huge_buffers", 0) + 1
     for a in range(1, 8):
         cases.append("find %d %s" % (a, hx(buf(40, [8 - a if a <= 8 else 0], 16))))
         cases.append("find %d %s" % (a, hx(bytes(0))))
